@@ -1,7 +1,8 @@
-From Gv Require Import lib.Bytes C11.Model C11.Spec.
+From Gv Require Import lib.Bytes C11.Model C11.Spec C11.ModelHint C11.SpecHint.
 From Coq Require Import Arith NArith ZArith.
 Require Import ExtrOcamlBasic.
 Extraction Language OCaml.
 (* N.of_nat / Z.of_nat only bring the number types that the shared OCaml prelude mentions *)
 Extraction "model.ml" Inb.step Inb.run Inb.init Sub.step Sub.run Sub.init fixed prefix asis nodefer spec_b spec_q_b check_actor
-  actor_of is_cancel body elig dreq dobs N.of_nat Z.of_nat.
+  actor_of is_cancel body elig dreq dobs N.of_nat Z.of_nat
+  Hint.step Hint.run Hint.init Hint.panicked Hint.fk hint_spec_b.
